@@ -47,15 +47,37 @@ class FormulaSpace:
     def names(self):
         return self._names
 
+    def theory(self):
+        """Axioms plus what is true of the atoms whatever the program does: `x == c1` and `x == c2` exclude each other."""
+        b = self.bdd
+        n = len(b.vars)
+        if getattr(self, "_theory_n", None) == (n, self.axioms):
+            return self._theory
+        groups = {}
+        for a in b.vars:
+            if isinstance(a, tuple) and a and a[0] == "bin" and a[1] == "Eq":
+                for (x, c) in ((a[2], a[3]), (a[3], a[2])):
+                    if c[0] == "const" and x[0] != "const" and c[1] is not None:
+                        groups.setdefault(x, []).append((c[1], a))
+        th = self.axioms
+        for x, lst in groups.items():
+            for i in range(len(lst)):
+                for j in range(i + 1, len(lst)):
+                    if lst[i][0] != lst[j][0]:
+                        th = b.AND(th, b.NOT(b.AND(b.var(lst[i][1]), b.var(lst[j][1]))))
+        self._theory_n = (n, self.axioms)
+        self._theory = th
+        return th
+
     def entails(self, pc, f):
         b = self.bdd
-        return b.AND(b.AND(self.axioms, pc), b.NOT(f)) == b.FALSE
+        return b.AND(b.AND(self.theory(), pc), b.NOT(f)) == b.FALSE
 
     def equivalent(self, f, g):
         return self.entails(f, g) and self.entails(g, f)
 
     def sat(self, f):
-        return self.bdd.AND(self.axioms, f) != self.bdd.FALSE
+        return self.bdd.AND(self.theory(), f) != self.bdd.FALSE
 
     def show_atom(self, a):
         nm = self.names()
@@ -74,7 +96,7 @@ class FormulaSpace:
     def counterexample(self, pc, f):
         """One assignment (as a readable string) satisfying pc & !f, or None."""
         b = self.bdd
-        g = b.AND(b.AND(self.axioms, pc), b.NOT(f))
+        g = b.AND(b.AND(self.theory(), pc), b.NOT(f))
         m = b.any_sat(g)
         if m is None:
             return None
@@ -543,7 +565,7 @@ _pa_cache = {}
 
 
 def patha_of(world, fn):
-    k = (id(world), fn.id)
+    k = (world.uid, fn.id)
     r = _pa_cache.get(k)
     if r is None:
         r = PathA(world, fn)
